@@ -1,14 +1,20 @@
-(** Python's [sorted(xs, key=k)] for string keys, used by sort_fields of both
-    paragraph classes (model, Repro/Struct.v) and by the list reference
-    (Repro/StructSpec.v).
+(** Python's [sorted(xs, key=k)], used by sort_fields(key=...) of both paragraph
+    classes (model, Repro/Struct.v) and by the list reference (Repro/StructSpec.v).
 
     [sorted] is a stable sort that compares keys with [<] only; on a list every
     stable sort returns the same result, so the insertion sort below IS the
     function (not an approximation of Timsort).  That it is a stable sort is
-    proved in Repro/StructProofs.v ([sort_by_sorted], [sort_by_stable],
-    [sort_by_perm]).  Python compares [str] values code point by code point, a
-    proper prefix being smaller. *)
-From Verif Require Import Lib.Base.
+    proved in Repro/StructSortProofs.v for EVERY key function into a type with a
+    total, transitive [<=] ([sort_by_sorted], [sort_by_stable], [sort_by_perm]).
+
+    The key functions sort_fields is exercised with form a small family
+    ([sortkey]); each is rendered as the function field name -> key value together
+    with the comparison Python uses for values of that type: [str] values are
+    compared code point by code point, a proper prefix being smaller; [int] and
+    [bool] values (False < True) numerically.  A key function maps every name into
+    ONE type, so keys of different types are never compared (Python would raise
+    TypeError): [keyfn] carries the type with its order. *)
+From Verif Require Import Lib.Base Lib.PyStr Repro.Doc.
 
 (** [a <= b] for Python strings *)
 Fixpoint str_leb (a b : str) : bool :=
@@ -18,17 +24,59 @@ Fixpoint str_leb (a b : str) : bool :=
   | x :: a', y :: b' => if (x <? y)%N then true else if (y <? x)%N then false else str_leb a' b'
   end.
 
+(** [a <= b] for Python bools: False < True *)
+Definition bool_leb (a b : bool) : bool := implb a b.
+
 Section Sort.
-  Context {A : Type}.
-  Variable key : A -> str.
+  Context {A K : Type}.
+  Variable leb : K -> K -> bool.       (* [a <= b], i.e. [not (b < a)] *)
+  Variable key : A -> K.
 
   (** [x] was in front of every element of [l] before sorting: it stays in front
       of the elements whose key equals its own *)
   Fixpoint sort_insert (x : A) (l : list A) : list A :=
     match l with
     | [] => [x]
-    | y :: l' => if str_leb (key x) (key y) then x :: y :: l' else y :: sort_insert x l'
+    | y :: l' => if leb (key x) (key y) then x :: y :: l' else y :: sort_insert x l'
     end.
 
   Definition sort_by (l : list A) : list A := fold_right sort_insert [] l.
 End Sort.
+
+(** * The key functions *)
+
+Inductive sortkey :=
+| KDefault       (* key=None: default_field_sort_key = lambda n: n.lower() *)
+| KLen           (* key=len *)
+| KConst         (* key=lambda n: 0                                 everything ties *)
+| KXLast         (* key=lambda n: n.lower().startswith("x-")        "X-" fields after the others *)
+| KFirstChar     (* key=lambda n: n[:1].lower() *)
+| KExact.        (* key=str                                         the name as spelled, case-sensitive *)
+
+Record keyfn := mkKeyfn {
+  k_ty : Type;                          (* what the key function returns *)
+  k_leb : k_ty -> k_ty -> bool;         (* Python's [<=] on it *)
+  k_of : str -> k_ty                    (* the key function, on the field name *)
+}.
+
+Definition X_DASH : str := [120; 45]%N.     (* "x-" *)
+
+Definition keyfn_of (k : sortkey) : keyfn :=
+  match k with
+  | KDefault => mkKeyfn str str_leb lower
+  | KLen => mkKeyfn N N.leb (fun n => N.of_nat (length n))
+  | KConst => mkKeyfn N N.leb (fun _ => 0%N)
+  | KXLast => mkKeyfn bool bool_leb (fun n => startswith X_DASH (lower n))
+  | KFirstChar => mkKeyfn str str_leb (fun n => lower (firstn 1 n))
+  | KExact => mkKeyfn str str_leb (fun n => n)
+  end.
+
+(** the key of a field under [k]; [sorted(fields, key=lambda f: key(f.field_name))] *)
+Definition field_key (k : sortkey) (f : field) : k_ty (keyfn_of k) := k_of (keyfn_of k) (f_name f).
+
+Definition sort_fields_by (k : sortkey) (fs : list field) : list field :=
+  sort_by (k_leb (keyfn_of k)) (field_key k) fs.
+
+(** two fields tie under [k]: neither key is smaller than the other *)
+Definition key_tie (k : sortkey) (f g : field) : bool :=
+  k_leb (keyfn_of k) (field_key k f) (field_key k g) && k_leb (keyfn_of k) (field_key k g) (field_key k f).
